@@ -12,7 +12,7 @@
 From Coq Require Import List ZArith Bool Arith String.
 Import ListNotations.
 Require Import C14.Types C14.gen.Ctors C14.Model C14.Wf C14.ProofsAssoc C14.ProofsRebuild C14.AllocPolicy
-  C14.gen.AllocSites C14.ProofsTables C14.Conv C14.ProofsConv C14.ProofsSpec C14.ProofsFinal.
+  C14.gen.AllocSites C14.gen.Overrides C14.ProofsTables C14.Conv C14.ProofsConv C14.ProofsSpec C14.ProofsFinal.
 
 (* ---------------------------------------------------------------- generated tables (finite; re-proved per run) *)
 
@@ -33,6 +33,14 @@ Proof. exact lossy_params_listed. Qed.
    the three named ZeroLinearOperator sites (AllocPolicy.known_untyped: known findings, reproduced dynamically) *)
 Theorem C14_alloc_sites_typed : forall s, In s sites -> is_known_untyped s = false -> site_ok s = true.
 Proof. exact alloc_sites_typed. Qed.
+
+(* the classes that define their own to / type / clone / detach / cpu / representation / dtype ... are exactly the ones
+   the model transcribes class by class (plus the overrides added by the proposed repairs of listed findings), and
+   every override the model relies on still exists: a new override cannot go unnoticed *)
+Theorem C14_overrides_modelled :
+  (forall c m, In (c, m) overrides -> In (c, m) (modelled_overrides ++ repair_overrides)) /\
+  (forall p, In p required_overrides -> In p overrides).
+Proof. exact (conj overrides_modelled overrides_required). Qed.
 
 (* ---------------------------------------------------------------- constructors on stored arguments *)
 
